@@ -47,7 +47,7 @@ def r1_number_arms(rep, ctx):
     res = Resolver(m, fn)
     P = {p: i for i, p in enumerate(fn.params)}
     rets = [r for r in own_nodes(fn.node) if isinstance(r, ast.Return) and r.value is not None]
-    rep.floor("C09.R1", "returns of Scalar._DoOperation", len(rets), 3)
+    rep.floor("C09.R1", "returns of Scalar._DoOperation", len(rets), 1)
     n_arms = 0
     for i, r in enumerate(rets):
         v = r.value
@@ -149,7 +149,7 @@ def r3_dunders(rep, ctx):
     m = ctx.model
     n = dispatch.check_dunders(rep, "C09.R3", m, "Scalar", with_lambda=True)
     n += dispatch.check_dunders(rep, "C09.R3", m, "Array")
-    rep.floor("C09.R3", "dunders", n, 20)
+    rep.floor("C09.R3", "dunders", n, 10)
 
 
 def r4_numpy_defers(rep, ctx):
